@@ -77,6 +77,8 @@ def gen_config(rng, allow_nonlinear=True, max_up=300.0, max_down=3000.0, datatyp
         cfg["itype"] = rng.below(8)
         cfg["otype"] = rng.below(8)
         cfg["ioflags"] = 8       # SOXR_NO_DITHER: output is compared across schedules
+        if rng.chance(.3):       # gain: integer outputs then saturate (clip-repair paths of rint-clip.h, clip counter)
+            cfg["scale"] = rng.choice([1.5, 2.0, 1.3, 0.5])
     if channels:
         cfg["ch"] = 1 + rng.below(4)
     env = {}
